@@ -173,6 +173,9 @@ struct CallCtx {
     std::shared_ptr<Node> sp[MAXPARAM];
     std::shared_ptr<NodeD> spd[MAXPARAM];
     int route[MAXPARAM] = {};
+    int cls[MAXPARAM] = {};
+    const void* held = nullptr;  // World<P>::held (virtual_ptr per class)
+    const void* held_s = nullptr;
     int ival[MAXPARAM] = {};
     double dval[MAXPARAM] = {};
     std::string sval[MAXPARAM];
@@ -185,6 +188,8 @@ template<class P>
 virtual_ptr<Node, P> make_vp(CallCtx& c, int i) {
     using VP = virtual_ptr<Node, P>;
     switch (c.route[i]) {
+    case RT_HELD:
+        return (*static_cast<const std::vector<VP>*>(c.held))[c.cls[i]];
     case RT_FINAL:
         return VP::final(*c.obj[i]);
     case RT_CONV_COPY: {
@@ -222,6 +227,8 @@ virtual_ptr<std::shared_ptr<Node>, P> make_vsp(CallCtx& c, int i) {
     using VP = virtual_ptr<std::shared_ptr<Node>, P>;
     using VPD = virtual_ptr<std::shared_ptr<NodeD>, P>;
     switch (c.route[i]) {
+    case RT_HELD:
+        return (*static_cast<const std::vector<VP>*>(c.held_s))[c.cls[i]];
     case RT_FINAL: {
         std::shared_ptr<Node> tmp = c.sp[i];
         return VP::final(std::move(tmp));
@@ -531,6 +538,15 @@ struct has_call_error_member : std::false_type {};
 template<class T>
 struct has_call_error_member<T, std::void_t<decltype(T::call_error = nullptr)>> : std::true_type {};
 
+// a re-used class_info stands for a freshly constructed registration object
+template<class CI>
+auto fresh_class_info(CI& ci, int) -> decltype(ci.is_type_resolved = false, void()) {
+    ci.is_type_resolved = false;
+}
+template<class CI>
+void fresh_class_info(CI&, long) {
+}
+
 template<class P>
 struct Store {
     static inline class_info recs[MAXREC];
@@ -551,6 +567,8 @@ struct World : IWorld {
     std::shared_ptr<Node> objs[MAXC][MAXALIAS];
     std::shared_ptr<NodeD> objsd[MAXC][MAXALIAS];
     type_id deferred_fns[MAXC * MAXALIAS];
+    std::vector<virtual_ptr<Node, P>> held;
+    std::vector<virtual_ptr<std::shared_ptr<Node>, P>> held_s;
     y2::error_handler_type default_error;
     y2::method_call_error_handler default_call_error = nullptr;
     int static_class[2] = {-1, -1};
@@ -709,6 +727,10 @@ struct World : IWorld {
         }
     }
 
+    void bind(const Registry& r) override {
+        bind_statics(r);
+    }
+
     void bind_statics(const Registry& r) {
         static_class[0] = r.static_class[0];
         static_class[1] = r.static_class[1];
@@ -728,6 +750,7 @@ struct World : IWorld {
         for (size_t i = 0; i < rec.listed.size(); ++i)
             bs.push_back(stored_id(r, rec.listed[i], rec.listed_alias[i]));
         bs.push_back(0); // spare slot: the "resolved" flag of deferred rtti
+        fresh_class_info(ci, 0);
         ci.type = stored_id(r, rec.cls, rec.alias);
         ci.first_base = bs.data();
         ci.last_base = bs.data() + rec.listed.size();
@@ -801,6 +824,8 @@ struct World : IWorld {
         for (size_t k = 0; k < r.records.size(); ++k)
             add_record(r, (int)k);
         for (int m : r.method_order) {
+            if (!r.methods[m].attached)
+                continue;
             attach_method(r, m);
             for (int d : r.methods[m].def_order)
                 if (r.methods[m].def_live[d])
@@ -958,6 +983,9 @@ struct World : IWorld {
                     c.sp[i] = objs[cls][al];
                 }
                 c.route[i] = rt;
+                c.cls[i] = cls;
+                c.held = &held;
+                c.held_s = &held_s;
                 if (expect_vptr)
                     expect_vptr[i] = *slot_of(cls);
                 ++vi;
@@ -992,9 +1020,33 @@ struct World : IWorld {
         return pf;
     }
 
+    Outcome hold_vptrs(const Registry& r) override {
+        Outcome out;
+        held.clear();
+        held_s.clear();
+        guarded(out, [&] {
+            for (int c = 0; c < r.n; ++c) {
+                // abstract (or, in histories, unregistered) classes have no objects: keep the
+                // vectors indexable with any registered class's pointer
+                int k = r.abstract_[c] ? r.static_class[0] : c;
+                if (r.abstract_[k]) {
+                    for (int q = 0; q < r.n; ++q)
+                        if (!r.abstract_[q])
+                            k = q;
+                }
+                held.push_back(virtual_ptr<Node, P>(*objs[k][0]));
+                held_s.push_back(virtual_ptr<std::shared_ptr<Node>, P>(objs[k][0]));
+            }
+        });
+        return out;
+    }
+
     VptrProbe probe_vptr(const Registry& r, int cls, int alias, int route, bool shared) override {
         VptrProbe pr;
         CallCtx c;
+        c.cls[0] = cls;
+        c.held = &held;
+        c.held_s = &held_s;
         bool useD = route == RT_FROM_D || route == RT_CONV_COPY || route == RT_CONV_MOVE;
         c.objd[0] = objsd[cls][alias].get();
         c.spd[0] = objsd[cls][alias];
@@ -1043,6 +1095,49 @@ struct World : IWorld {
         if constexpr (P::template has_facet<yp::type_hash>) {
             guarded(out, [&] { index = P::hash_type_id(id); });
         }
+        return out;
+    }
+
+    struct IdSet {
+        std::vector<type_id> ids;
+        auto type_id_begin() const {
+            return ids.begin();
+        }
+        auto type_id_end() const {
+            return ids.end();
+        }
+    };
+
+    Outcome hash_init(const std::vector<std::vector<type_id>>& classes) override {
+        Outcome out;
+        if constexpr (P::template has_facet<yp::type_hash>) {
+            std::vector<IdSet> sets;
+            for (auto& c : classes)
+                sets.push_back(IdSet{c});
+            guarded(out, [&] { P::hash_initialize(sets.begin(), sets.end()); });
+        }
+        return out;
+    }
+
+    template<class Q>
+    static auto set_budget(size_t n, int) -> decltype(Q::verif_max_attempts = n, true) {
+        Q::verif_max_attempts = n;
+        return true;
+    }
+    template<class Q>
+    static bool set_budget(size_t, long) {
+        return false;
+    }
+    bool set_hash_budget(size_t attempts) override {
+        if constexpr (P::template has_facet<yp::type_hash>)
+            return set_budget<P>(attempts, 0);
+        else
+            return false;
+    }
+
+    Outcome try_lookup(type_id id, const std::uintptr_t*& vptr) override {
+        Outcome out;
+        guarded(out, [&] { vptr = lookup_vptr(id); });
         return out;
     }
 
